@@ -7,6 +7,7 @@ import (
 	"sort"
 	"strings"
 
+	"github.com/samaritan-proxy/samaritan/host"
 	"github.com/samaritan-proxy/samaritan/proc"
 	"github.com/samaritan-proxy/samaritan/verifrt/sched"
 	"github.com/samaritan-proxy/samaritan/verifrt/sim/cluster"
@@ -20,6 +21,7 @@ import (
 //
 // alphabet  connect | disconnect oldest | request ok | unsupported command | invalid request | multi-key request |
 //           move a slot group (next request is MOVED-redirected) | start migration (ASK) | node down | node up |
+//           remove every host | add the hosts again | the whole cluster down when the proxy starts |
 //           reset backend connections ; connection limit 2 (a third connection is rejected);
 //           ending: close every client | Stop with the clients still open
 // bound     depth (quick 4, thorough 5)
@@ -29,7 +31,7 @@ import (
 //           its start value at any quiescent point
 // ---------------------------------------------------------------------------
 
-var c20ops = []string{"connect", "disconnect", "req-ok", "req-unsupported", "req-invalid", "req-multikey", "move-group", "start-migration", "node-down", "node-up", "reset-backend"}
+var c20ops = []string{"connect", "disconnect", "req-ok", "req-unsupported", "req-invalid", "req-multikey", "move-group", "start-migration", "node-down", "node-up", "reset-backend", "remove-all-hosts", "add-hosts"}
 
 type c20snap struct {
 	cxTotal, cxDestroy, cxActive uint64
@@ -59,6 +61,13 @@ func c20body(depth int) func() {
 		sched.OnReset(restore)
 		cl := cluster.New(2, 0, 2)
 		cl.Start()
+		// cold: the cluster is down when the proxy starts, so no slot information is ever loaded
+		cold := sched.Choose(sched.ClsInput, 2, "cluster-down-at-start") == 1
+		if cold {
+			for _, n := range cl.Nodes {
+				n.Stop()
+			}
+		}
 		p := vfNewProc(vfSvcConfig(0, nil, 2), cl.Nodes[0].Addr, cl.Nodes[1].Addr)
 		start := c20take(p)
 		p.Start()
@@ -130,6 +139,10 @@ func c20body(depth int) func() {
 				}
 			case "reset-backend":
 				m0.ResetConns()
+			case "remove-all-hosts":
+				p.OnSvcHostRemove([]*host.Host{host.New(cl.Nodes[0].Addr), host.New(cl.Nodes[1].Addr)})
+			case "add-hosts":
+				p.OnSvcHostAdd([]*host.Host{host.New(cl.Nodes[0].Addr), host.New(cl.Nodes[1].Addr)})
 			}
 			sched.WaitQuiescent()
 			now := c20take(p)
